@@ -36,6 +36,8 @@ func vpInbound(policy MessageSignaturePolicy, author bool) {
 	fromGarbage, extractable := vpBool("from_garbage"), vpBool("from_extractable")
 	keyGarbage, keyIsAuthor, sigValid := vpBool("key_garbage"), vpBool("key_is_author"), vpBool("sig_valid")
 	sigByOther := vpBool("sig_verifies_under_the_other_key") // a forger signing with a key of its own
+	sigEmpty := vpBool("signature_field_present_but_empty")  // what Unmarshal yields for a zero-length signature field
+	vpAssume(!sigEmpty || (!sigValid && !sigByOther))          // an empty signature verifies under no key
 	vpCryptoSet("from_garbage", b2i(fromGarbage))
 	vpCryptoSet("from_extractable", b2i(extractable))
 	vpCryptoSet("key_garbage", b2i(keyGarbage))
@@ -59,6 +61,9 @@ func vpInbound(policy MessageSignaturePolicy, author bool) {
 	}
 	if hasSig {
 		m.Signature = []byte("S")
+		if sigEmpty {
+			m.Signature = []byte{}
+		}
 	}
 	msg := &Message{Message: m, ReceivedFrom: "p0"}
 	if srcSelf {
@@ -109,6 +114,9 @@ func vpInbound(policy MessageSignaturePolicy, author bool) {
 		vpCover(accepted && !hasSig, "unsigned message accepted under the no-signing policy")
 	}
 	vpCover(!accepted && hasSig && hasKey && !keyIsAuthor && sigValid, "rejected: attached key is not the author's")
+	if policy != StrictNoSign {
+		vpCover(!accepted && hasSig && sigEmpty && hasFrom && !fromGarbage, "rejected: present but empty signature")
+	}
 }
 
 func vpH_C03_inbound_strictsign()   { vpOpt("native", 0); vpInbound(StrictSign, true) }
